@@ -930,6 +930,17 @@ class Tensor:
         if self._base is None:
             return self._grad
 
+        if self._constant:
+            # a constant tensor never has a gradient, even if it is
+            # a view of a non-constant tensor
+            return None
+
+        if self._base._constant:
+            # the base never receives a gradient that this view could mirror;
+            # a (non-constant) view of it only has the gradient that was
+            # back-propagated to the view itself
+            return self._grad
+
         if self._view_grad is not None and self._view_grad.base is self._base._grad:
             # view grad has been computed already
             return self._view_grad
